@@ -91,7 +91,7 @@ theorem aliasEndsInUser_shape {api : Api} {n : Nat} {t : Ty} (h : aliasEndsInUse
 
 theorem globals_aliasSection (api : Api) (ns : Namespace) :
     (aliasSection api ns).flatMap Stmt.globals
-      = ns.aliases.flatMap (fun a => (a.name ++ "_validator") ::
+      = ns.aliases.flatMap (fun a => (fmtClass a.name ++ "_validator") ::
           (if aliasEndsInUser api api.nAliases a.ty then [a.name] else [])) := by
   simp only [aliasSection]
   induction ns.aliases with
@@ -275,8 +275,8 @@ theorem routes_listed (api : Api) (ns : Namespace) :
 
 /-- every alias has `<name>_validator` -/
 theorem alias_validator (api : Api) (ns : Namespace) (a : Alias) (ha : a ∈ ns.aliases) :
-    ∃ copy uses, Stmt.assign (a.name ++ "_validator") none copy uses ∈ pyTypesStmts api ns := by
-  have h : ∃ copy, Stmt.assign (a.name ++ "_validator") none copy (tyRefs ns.name a.ty) ∈ aliasStmts api ns.name a := by
+    ∃ copy uses, Stmt.assign (fmtClass a.name ++ "_validator") none copy uses ∈ pyTypesStmts api ns := by
+  have h : ∃ copy, Stmt.assign (fmtClass a.name ++ "_validator") none copy (tyRefs ns.name a.ty) ∈ aliasStmts api ns.name a := by
     simp [aliasStmts]
   obtain ⟨copy, h⟩ := h
   exact ⟨copy, _, mem_pyTypes_of_mem_alias (List.mem_flatMap.mpr ⟨a, ha, h⟩)⟩
